@@ -15,18 +15,25 @@ Definition dfp (d : darr) : fpr :=
 Lemma dfp_default : dfp da_default = fp0.
 Proof. reflexivity. Qed.
 
-Definition drel_ev (d : darr) (l : list V) : list ev :=
-  if Nat.eqb (d_blk d) 0 then [] else [EDealloc (d_blk d) (esz * N.of_nat (length l))%N].
+Definition drel_ev (al : nat) (d : darr) (l : list V) : list ev :=
+  if Nat.eqb (d_blk d) 0 then [] else [EDealloc (reenc al (d_blk d)) (esz * N.of_nat (length l))%N].
 
-Lemma dg_destruct ls fs nb r d l : TR ls fs nb -> r < 4 -> fs r = dfp d -> dinv d l ->
-  exists ls', ev_run ls (destroy_evs (heap_nm (d_blk d)) 0 (length l) ++ drel_ev d l) = Some ls' /\
+(* the allocator instance al is the one that handed out the block of d *)
+Definition dok (al : nat) (d : darr) : Prop := al < NINST /\ (d_blk d <> 0 -> reenc al (d_blk d) = d_blk d).
+Lemma dok_default al : al < NINST -> dok al da_default.
+Proof. intros H. split; [exact H | intros C; cbn in C; congruence]. Qed.
+Lemma dok_new al nb c n : al < NINST -> dok al (mk_da (enc al nb) c n).
+Proof. intros H. split; [exact H | intros _; cbn [d_blk]; now apply reenc_enc]. Qed.
+
+Lemma dg_destruct ls fs al nb r d l : TR ls fs nb -> r < 4 -> fs r = dfp d -> dinv d l -> dok al d ->
+  exists ls', ev_run ls (destroy_evs (heap_nm (d_blk d)) 0 (length l) ++ drel_ev al d l) = Some ls' /\
     TR ls' (set_reg fs r fp0) nb.
 Proof.
-  intros TRs Hr Er (Hs & _). pose proof TRs as (T & G & Esp). pose proof G as (Nz & _).
-  destruct (fp_destruct VK ls fs nb r fp0 (drel_ev d l) T G) as (ls' & E & T' & G'); try (unfold VK; lia); try reflexivity.
+  intros TRs Hr Er (Hs & _) (_ & Ak). pose proof TRs as (T & G & Esp). pose proof G as (Nz & _).
+  destruct (fp_destruct VK ls fs nb r fp0 (drel_ev al d l) T G) as (ls' & E & T' & G'); try (unfold VK; lia); try reflexivity.
   { now apply fp_ok_fp0. }
   { intros j _ _. apply sep_fp0. }
-  { rewrite Er. unfold dfp, drel_ev. cbn [f_heap]. destruct (Nat.eqb (d_blk d) 0); [reflexivity | right; now rewrite Hs]. }
+  { rewrite Er. unfold dfp, drel_ev. cbn [f_heap]. destruct (Nat.eqb_spec (d_blk d) 0); [reflexivity | right; now rewrite Hs, Ak]. }
   rewrite Er in E. cbn [dfp f_size f_nm f_k f_off] in E. rewrite Hs in E.
   exists ls'. split; [exact E|]. now apply TR_set.
 Qed.
@@ -34,42 +41,46 @@ Qed.
 Lemma dfp_new nb c n : nb <> 0 -> dfp (mk_da nb c n) = mk_fp nb 0 n n (Some (nb, (esz * N.of_nat n)%N)).
 Proof. intros Nz. unfold dfp. cbn [d_blk d_size]. now rewrite (proj2 (Nat.eqb_neq nb 0) Nz). Qed.
 
-(* dyn_array(n) into the empty slot r *)
-Lemma dg_sized ls fs nb r n c : TR ls fs nb -> r < 4 -> fs r = fp0 ->
-  exists ls', ev_run ls (EAlloc nb (esz * N.of_nat n)%N :: fill_evs (heap_nm nb) 0 n) = Some ls' /\
-    TR ls' (set_reg fs r (dfp (mk_da nb c n))) (S nb).
+(* dyn_array(n) into the empty slot r, on allocator instance al *)
+Lemma dg_sized ls fs al nb r n c : TR ls fs (NINST * nb) -> r < 4 -> fs r = fp0 -> al < NINST ->
+  exists ls', ev_run ls (EAlloc (enc al nb) (esz * N.of_nat n)%N :: fill_evs (heap_nm (enc al nb)) 0 n) = Some ls' /\
+    TR ls' (set_reg fs r (dfp (mk_da (enc al nb) c n))) (NINST * S nb).
 Proof.
-  intros TRs Hr Er. pose proof TRs as (T & G & Esp). pose proof G as (Nz & _).
-  destruct (fp_alloc VK ls fs nb r n (esz * N.of_nat n)%N T G) as (l1 & E1 & T1 & G1); try (unfold VK; lia); try (now rewrite Er).
-  set (f1 := mk_fp nb 0 0 n (Some (nb, (esz * N.of_nat n)%N))) in *.
-  destruct (fp_fill VK l1 (set_reg fs r f1) (S nb) r n T1 G1) as (l2 & E2 & T2 & G2); try (unfold VK; lia); try (rewrite set_reg_same; cbn; lia).
+  intros TRs Hr Er Al. pose proof TRs as (T & G & Esp). pose proof G as (Nz & _). set (b := enc al nb).
+  assert (Bz : b <> 0) by (pose proof (enc_ge al nb); unfold b; lia).
+  destruct (fp_alloc VK ls fs (NINST * nb) b r n (esz * N.of_nat n)%N T G) as (l1 & E1 & T1 & G1); try (unfold VK; lia); try (now rewrite Er); [apply enc_ge|].
+  set (f1 := mk_fp b 0 0 n (Some (b, (esz * N.of_nat n)%N))) in *.
+  destruct (fp_fill VK l1 (set_reg fs r f1) (S b) r n T1 G1) as (l2 & E2 & T2 & G2); try (unfold VK; lia); try (rewrite set_reg_same; cbn; lia).
   rewrite set_reg_same in E2, T2, G2. cbn [f1 f_size f_nm f_k f_off] in E2. rewrite Nat.sub_0_r in E2.
   exists l2. split.
-  - change (EAlloc nb ?b :: ?x) with ([EAlloc nb b] ++ x). rewrite (ev_run_app_some _ _ _ _ E1). exact E2.
-  - rewrite dfp_new by exact Nz. eapply TR_ext with (fs := set_reg (set_reg fs r f1) r (resize_fp f1 n)).
+  - change (EAlloc b ?x :: ?y) with ([EAlloc b x] ++ y). rewrite (ev_run_app_some _ _ _ _ E1). exact E2.
+  - rewrite dfp_new by exact Bz. apply (TR_mono _ _ (S b)); [now apply enc_lt|].
+    eapply TR_ext with (fs := set_reg (set_reg fs r f1) r (resize_fp f1 n)).
     + intros j. now rewrite set_reg_set.
     + split; [exact T2|]. split; [exact G2|]. rewrite !set_reg_other by lia. exact Esp.
 Qed.
 
-(* copy construction from slot s into the empty slot t *)
-Lemma dg_copy ls fs nb s t o l c : TR ls fs nb -> s < 4 -> t < 4 -> s <> t -> fs s = dfp o -> fs t = fp0 -> dinv o l ->
-  exists ls', ev_run ls (EAlloc nb (esz * N.of_nat (length l))%N :: xfer_evs (heap_nm (d_blk o)) (heap_nm nb) 0 (length l)) = Some ls' /\
-    TR ls' (set_reg fs t (dfp (mk_da nb c (length l)))) (S nb).
+(* copy construction from slot s into the empty slot t, on allocator instance al *)
+Lemma dg_copy ls fs al nb s t o l c : TR ls fs (NINST * nb) -> s < 4 -> t < 4 -> s <> t -> fs s = dfp o -> fs t = fp0 -> dinv o l -> al < NINST ->
+  exists ls', ev_run ls (EAlloc (enc al nb) (esz * N.of_nat (length l))%N :: xfer_evs (heap_nm (d_blk o)) (heap_nm (enc al nb)) 0 (length l)) = Some ls' /\
+    TR ls' (set_reg fs t (dfp (mk_da (enc al nb) c (length l)))) (NINST * S nb).
 Proof.
-  intros TRs Hs Ht Nst Es Et (Os & _). pose proof TRs as (T & G & Esp). pose proof G as (Nz & _).
-  destruct (fp_alloc VK ls fs nb t (length l) (esz * N.of_nat (length l))%N T G) as (l1 & E1 & T1 & G1);
-    try (unfold VK; lia); try (now rewrite Et).
-  set (f1 := mk_fp nb 0 0 (length l) (Some (nb, (esz * N.of_nat (length l))%N))) in *.
+  intros TRs Hs Ht Nst Es Et (Os & _) Al. pose proof TRs as (T & G & Esp). pose proof G as (Nz & _). set (b := enc al nb).
+  assert (Bz : b <> 0) by (pose proof (enc_ge al nb); unfold b; lia).
+  destruct (fp_alloc VK ls fs (NINST * nb) b t (length l) (esz * N.of_nat (length l))%N T G) as (l1 & E1 & T1 & G1);
+    try (unfold VK; lia); try (now rewrite Et); [apply enc_ge|].
+  set (f1 := mk_fp b 0 0 (length l) (Some (b, (esz * N.of_nat (length l))%N))) in *.
   set (fs1 := set_reg fs t f1) in *.
   assert (F1s : fs1 s = dfp o) by (unfold fs1; now rewrite set_reg_other).
   assert (F1t : fs1 t = f1) by (unfold fs1; now rewrite set_reg_same).
-  destruct (fp_xfer VK l1 fs1 (S nb) s t T1 G1) as (l2 & E2 & T2 & G2); try (unfold VK; lia).
+  destruct (fp_xfer VK l1 fs1 (S b) s t T1 G1) as (l2 & E2 & T2 & G2); try (unfold VK; lia).
   { now rewrite F1t. }
   { rewrite F1s, F1t. cbn [dfp f1 f_size f_lim]. lia. }
   rewrite F1s, F1t in E2, T2, G2. cbn [dfp f1 f_size f_nm f_k f_off] in E2, T2, G2. rewrite Os in E2, T2, G2.
   exists l2. split.
-  - change (EAlloc nb ?b :: ?x) with ([EAlloc nb b] ++ x). rewrite (ev_run_app_some _ _ _ _ E1). exact E2.
-  - rewrite dfp_new by exact Nz. eapply TR_ext with (fs := set_reg fs1 t (resize_fp f1 (length l))).
+  - change (EAlloc b ?x :: ?y) with ([EAlloc b x] ++ y). rewrite (ev_run_app_some _ _ _ _ E1). exact E2.
+  - rewrite dfp_new by exact Bz. apply (TR_mono _ _ (S b)); [now apply enc_lt|].
+    eapply TR_ext with (fs := set_reg fs1 t (resize_fp f1 (length l))).
     + intros j. unfold fs1. now rewrite set_reg_set.
     + split; [exact T2|]. split; [exact G2|]. unfold fs1. rewrite !set_reg_other by lia. exact Esp.
 Qed.
@@ -93,126 +104,148 @@ Definition dregs_ok (o : dop) : Prop :=
   | DAssign r s | DMoveAssign r s | DCopyCtor r s | DMoveCtor r s | DSwap r s => r < 3 /\ s < 3
   end.
 
+Definition doks (al : nat -> nat) (rg : nat -> darr) : Prop := forall r, dok (al r) (rg r).
+Lemma doks_set al rg r a v : doks al rg -> dok a v -> doks (set_reg al r a) (set_reg rg r v).
+Proof. intros Z Hv k. unfold set_reg. destruct (Nat.eqb k r); [exact Hv | apply Z]. Qed.
+Lemma doks_set_reg al rg r v : doks al rg -> dok (al r) v -> doks al (set_reg rg r v).
+Proof. intros Z Hv k. unfold set_reg. destruct (Nat.eqb_spec k r) as [->|]; [exact Hv | apply Z]. Qed.
+
 Lemma dstep_log st rs o ls :
-  drel st rs -> TR ls (dfs (dregs st)) (dnextb st) -> dref_pre rs o -> dregs_ok o ->
+  drel st rs -> doks (dals st) (dregs st) -> TR ls (dfs (dregs st)) (NINST * dnextb st) -> dref_pre rs o -> dregs_ok o ->
   exists st' e ls', dstep esz st o = Ok (st', snd (dref_step rs o), e) /\ ev_run ls e = Some ls' /\
-    drel st' (fst (dref_step rs o)) /\ TR ls' (dfs (dregs st')) (dnextb st').
+    drel st' (fst (dref_step rs o)) /\ doks (dals st') (dregs st') /\ TR ls' (dfs (dregs st')) (NINST * dnextb st').
 Proof.
-  intros R T P RO.
+  intros R Z T P RO.
   destruct (dstep_refines esz st rs o R P) as (st0 & e0 & Hstep & R').
-  destruct st as [rg nb]. pose proof R as R0. unfold drel in R0. cbn [dregs dnextb] in *.
-  assert (Fin : forall st' e ls', dstep esz (mk_dst rg nb) o = Ok (st', snd (dref_step rs o), e) ->
-            ev_run ls e = Some ls' -> TR ls' (dfs (dregs st')) (dnextb st') ->
-            exists st' e ls', dstep esz (mk_dst rg nb) o = Ok (st', snd (dref_step rs o), e) /\ ev_run ls e = Some ls' /\
-              drel st' (fst (dref_step rs o)) /\ TR ls' (dfs (dregs st')) (dnextb st')).
-  { intros st' e ls' H1 H2 H4. exists st', e, ls'. split; [exact H1|]. split; [exact H2|]. split; [|assumption].
+  destruct st as [rg al nb]. pose proof R as R0. unfold drel in R0. cbn [dregs dals dnextb] in *.
+  assert (Fin : forall st' e ls', dstep esz (mk_dst rg al nb) o = Ok (st', snd (dref_step rs o), e) ->
+            ev_run ls e = Some ls' -> doks (dals st') (dregs st') -> TR ls' (dfs (dregs st')) (NINST * dnextb st') ->
+            exists st' e ls', dstep esz (mk_dst rg al nb) o = Ok (st', snd (dref_step rs o), e) /\ ev_run ls e = Some ls' /\
+              drel st' (fst (dref_step rs o)) /\ doks (dals st') (dregs st') /\ TR ls' (dfs (dregs st')) (NINST * dnextb st')).
+  { intros st' e ls' H1 H2 H3 H4. exists st', e, ls'. split; [exact H1|]. split; [exact H2|]. split; [|split; assumption].
     rewrite Hstep in H1. inversion H1; subst. exact R'. }
   clear Hstep R'.
-  destruct o as [r n|r|r i x|r i|r|r s|r s|r s|r s|r s]; cbn [dstep dregs dnextb dref_step fst snd dref_pre dregs_ok] in *.
+  destruct o as [r n|r|r i x|r i|r|r s|r s|r s|r s|r s]; cbn [dstep dregs dals dnextb dref_step fst snd dref_pre dregs_ok] in *.
   - (* make *)
-    destruct (dg_destruct ls _ _ r (rg r) (rs r) T) as (l1 & E1 & T1); [lia | now apply dfs_at | apply R0|].
-    destruct (dg_sized l1 _ nb r n (map Some (repeat 0%N n)) T1) as (l2 & E2 & T2); [lia | now rewrite set_reg_same|].
-    eapply Fin; [rewrite (da_destruct_eq esz (rg r) (rs r) (R0 r)); cbn [bind]; rewrite da_sized_eq; reflexivity
-                | unfold drel_ev in E1; rewrite (ev_run_app_some _ _ _ _ E1); exact E2 |].
-    cbn [dregs dnextb]. eapply TR_ext; [|exact T2]. intros j. rewrite dfs_set by lia. now rewrite set_reg_set.
+    destruct (Z r) as (Alr & _).
+    destruct (dg_destruct ls _ (al r) _ r (rg r) (rs r) T) as (l1 & E1 & T1); [lia | now apply dfs_at | apply R0 | apply Z|].
+    destruct (dg_sized l1 _ (al r) nb r n (map Some (repeat 0%N n)) T1) as (l2 & E2 & T2); [lia | now rewrite set_reg_same | exact Alr|].
+    eapply Fin; [rewrite (da_destruct_eq esz (al r) (rg r) (rs r) (R0 r)); cbn [bind]; rewrite da_sized_eq; reflexivity
+                | unfold drel_ev in E1; rewrite (ev_run_app_some _ _ _ _ E1); exact E2 | |].
+    + cbn [dregs dals]. apply doks_set_reg; [exact Z | now apply dok_new].
+    + cbn [dregs dnextb]. eapply TR_ext; [|exact T2]. intros j. rewrite dfs_set by lia. now rewrite set_reg_set.
   - (* default *)
-    destruct (dg_destruct ls _ _ r (rg r) (rs r) T) as (l1 & E1 & T1); [lia | now apply dfs_at | apply R0|].
-    eapply Fin; [rewrite (da_destruct_eq esz (rg r) (rs r) (R0 r)); reflexivity | exact E1 |].
-    cbn [dregs dnextb]. apply TR_dreg; [lia|]. exact T1.
+    destruct (Z r) as (Alr & _).
+    destruct (dg_destruct ls _ (al r) _ r (rg r) (rs r) T) as (l1 & E1 & T1); [lia | now apply dfs_at | apply R0 | apply Z|].
+    eapply Fin; [rewrite (da_destruct_eq esz (al r) (rg r) (rs r) (R0 r)); reflexivity | exact E1 | |].
+    + cbn [dregs dals]. apply doks_set_reg; [exact Z | now apply dok_default].
+    + cbn [dregs dnextb]. apply TR_dreg; [lia|]. exact T1.
   - (* set *)
     assert (U : ev_run ls [EUse (d_blk (rg r), i)] = Some ls).
     { destruct T as (T & _). apply (fp_uses VK ls (dfs rg) r _ T); [unfold VK; lia|]. rewrite dfs_at by lia.
       constructor; [|constructor]. exists i. split; [|reflexivity]. cbn [dfp f_size]. destruct (R0 r) as (-> & _). exact P. }
-    eapply Fin; [rewrite (da_set_eq (rg r) (rs r) i x (R0 r) P); reflexivity | exact U |].
-    cbn [dregs dnextb]. apply TR_dreg; [lia|]. eapply TR_ext; [|exact T]. intros j. unfold set_reg. destruct (Nat.eqb_spec j r) as [->|]; [|reflexivity].
-    rewrite dfs_at by lia. unfold dfp. cbn [d_blk d_size]. destruct (R0 r) as (-> & _). reflexivity.
+    eapply Fin; [rewrite (da_set_eq (rg r) (rs r) i x (R0 r) P); reflexivity | exact U | |].
+    + cbn [dregs dals]. apply doks_set_reg; [exact Z | exact (Z r)].
+    + cbn [dregs dnextb]. apply TR_dreg; [lia|]. eapply TR_ext; [|exact T]. intros j. unfold set_reg. destruct (Nat.eqb_spec j r) as [->|]; [|reflexivity].
+      rewrite dfs_at by lia. unfold dfp. cbn [d_blk d_size]. destruct (R0 r) as (-> & _). reflexivity.
   - (* index *)
-    eapply Fin; [rewrite (da_index_eq (rg r) (rs r) i (R0 r)); apply Nat.ltb_lt in P; rewrite P; reflexivity | reflexivity | exact T].
+    eapply Fin; [rewrite (da_index_eq (rg r) (rs r) i (R0 r)); apply Nat.ltb_lt in P; rewrite P; reflexivity | reflexivity | exact Z | exact T].
   - (* empty *)
-    eapply Fin; [rewrite (da_empty_eq (rg r) (rs r) (R0 r)); reflexivity | reflexivity | exact T].
+    eapply Fin; [rewrite (da_empty_eq (rg r) (rs r) (R0 r)); reflexivity | reflexivity | exact Z | exact T].
   - (* copy assignment *)
-    destruct RO as [Hr Hs].
-    destruct (dg_copy ls (dfs rg) nb s 3 (rg s) (rs s) (map Some (rs s)) T) as (l1 & E1 & T1); [lia | lia | lia | now apply dfs_at | now apply dfs_hi | apply R0|].
-    destruct (dg_destruct l1 _ _ r (rg r) (rs r) T1) as (l2 & E2 & T2); [lia | rewrite set_reg_other by lia; now apply dfs_at | apply R0|].
-    eapply Fin; [rewrite (da_copy_ctor_eq esz nb (rg s) (rs s) (R0 s)); cbn [bind]; rewrite (da_destruct_eq esz (rg r) (rs r) (R0 r)); reflexivity
-                | unfold drel_ev in E2; rewrite (ev_run_app_some _ _ _ _ E1); exact E2 |].
-    cbn [dregs dnextb]. eapply TR_ext; [|apply (TR_swap _ _ _ r 3 T2); lia].
-    intros j. rewrite dfs_set by lia. rewrite swap_slots_at. unfold set_reg.
-    destruct (Nat.eqb_spec j 3) as [->|N3].
-    + destruct (Nat.eqb_spec 3 r); [lia|]. rewrite Nat.eqb_refl. now rewrite dfs_hi by lia.
-    + destruct (Nat.eqb_spec j r) as [->|Nr]; [|reflexivity].
-      destruct (Nat.eqb_spec 3 r); [lia|]. now rewrite Nat.eqb_refl.
+    destruct RO as [Hr Hs]. destruct (Z s) as (Als & _).
+    destruct (dg_copy ls (dfs rg) (al s) nb s 3 (rg s) (rs s) (map Some (rs s)) T) as (l1 & E1 & T1); [lia | lia | lia | now apply dfs_at | now apply dfs_hi | apply R0 | exact Als|].
+    destruct (dg_destruct l1 _ (al r) _ r (rg r) (rs r) T1) as (l2 & E2 & T2); [lia | rewrite set_reg_other by lia; now apply dfs_at | apply R0 | apply Z|].
+    eapply Fin; [rewrite (da_copy_ctor_eq esz (al s) nb (rg s) (rs s) (R0 s)); cbn [bind]; rewrite (da_destruct_eq esz (al r) (rg r) (rs r) (R0 r)); reflexivity
+                | unfold drel_ev in E2; rewrite (ev_run_app_some _ _ _ _ E1); exact E2 | |].
+    + cbn [dregs dals]. apply doks_set; [exact Z | now apply dok_new].
+    + cbn [dregs dnextb]. eapply TR_ext; [|apply (TR_swap _ _ _ r 3 T2); lia].
+      intros j. rewrite dfs_set by lia. rewrite swap_slots_at. unfold set_reg.
+      destruct (Nat.eqb_spec j 3) as [->|N3].
+      * destruct (Nat.eqb_spec 3 r); [lia|]. rewrite Nat.eqb_refl. now rewrite dfs_hi by lia.
+      * destruct (Nat.eqb_spec j r) as [->|Nr]; [|reflexivity].
+        destruct (Nat.eqb_spec 3 r); [lia|]. now rewrite Nat.eqb_refl.
   - (* move assignment *)
     destruct RO as [Hr Hs].
-    assert (R1 : drel (mk_dst (set_reg rg s da_default) nb) (set_reg rs s [])) by (eapply drel_set; [exact R | apply dinv_default]).
+    assert (R1 : drel (mk_dst (set_reg rg s da_default) al nb) (set_reg rs s [])) by (eapply drel_set; [exact R | apply dinv_default]).
     pose proof (R1 r) as Hmine. cbn [dregs] in Hmine.
     pose proof (TR_swap _ _ _ s 3 T) as T0. specialize (T0 ltac:(lia) ltac:(lia)).
-    destruct (dg_destruct ls _ _ r (set_reg rg s da_default r) (set_reg rs s [] r) T0) as (l2 & E2 & T2); [lia | | exact Hmine|].
+    assert (Am : dok (al r) (set_reg rg s da_default r)).
+    { unfold set_reg. destruct (Nat.eqb r s); [apply dok_default, Z | apply Z]. }
+    destruct (dg_destruct ls _ (al r) _ r (set_reg rg s da_default r) (set_reg rs s [] r) T0) as (l2 & E2 & T2); [lia | | exact Hmine | exact Am|].
     { rewrite swap_slots_at. destruct (Nat.eqb_spec r 3); [lia|]. unfold set_reg. destruct (Nat.eqb_spec r s) as [->|Nrs].
       - rewrite dfs_hi by lia. reflexivity.
       - now apply dfs_at. }
-    eapply Fin; [rewrite (da_destruct_eq esz _ _ Hmine); reflexivity | exact E2 |].
-    cbn [dregs dnextb]. eapply TR_ext; [|apply (TR_swap _ _ _ r 3 T2); lia].
-    intros j. rewrite dfs_set by lia. rewrite !swap_slots_at. unfold set_reg at 1 2.
-    destruct (Nat.eqb_spec j 3) as [->|N3].
-    + destruct (Nat.eqb_spec 3 r); [lia|]. rewrite set_reg_same. unfold dfs. cbn. reflexivity.
-    + destruct (Nat.eqb_spec j r) as [->|Nr].
-      * rewrite set_reg_other by lia. rewrite swap_slots_at, Nat.eqb_refl. now rewrite dfs_at by lia.
-      * rewrite set_reg_other by exact Nr. rewrite swap_slots_at. rewrite (proj2 (Nat.eqb_neq j 3) N3).
-        destruct (Nat.eqb_spec j s) as [->|Ns].
-        -- rewrite (dfs_hi rg 3) by lia. rewrite dfs_at by lia. now rewrite Nat.eqb_refl.
-        -- unfold dfs, set_reg. now rewrite (proj2 (Nat.eqb_neq j s) Ns).
+    eapply Fin; [rewrite (da_destruct_eq esz (al r) _ _ Hmine); reflexivity | exact E2 | |].
+    + cbn [dregs dals]. apply doks_set; [|apply Z]. intros k. unfold set_reg. destruct (Nat.eqb k s); [apply dok_default, Z | apply Z].
+    + cbn [dregs dnextb]. eapply TR_ext; [|apply (TR_swap _ _ _ r 3 T2); lia].
+      intros j. rewrite dfs_set by lia. rewrite !swap_slots_at. unfold set_reg at 1 2.
+      destruct (Nat.eqb_spec j 3) as [->|N3].
+      * destruct (Nat.eqb_spec 3 r); [lia|]. rewrite set_reg_same. unfold dfs. cbn. reflexivity.
+      * destruct (Nat.eqb_spec j r) as [->|Nr].
+        -- rewrite set_reg_other by lia. rewrite swap_slots_at, Nat.eqb_refl. now rewrite dfs_at by lia.
+        -- rewrite set_reg_other by exact Nr. rewrite swap_slots_at. rewrite (proj2 (Nat.eqb_neq j 3) N3).
+           destruct (Nat.eqb_spec j s) as [->|Ns].
+           ++ rewrite (dfs_hi rg 3) by lia. rewrite dfs_at by lia. now rewrite Nat.eqb_refl.
+           ++ unfold dfs, set_reg. now rewrite (proj2 (Nat.eqb_neq j s) Ns).
   - (* copy construction *)
-    destruct RO as [Hr Hs].
-    destruct (Nat.eqb_spec r s) as [->|Nrs]; [eapply Fin; [reflexivity | reflexivity | exact T]|].
-    destruct (dg_destruct ls _ _ r (rg r) (rs r) T) as (l1 & E1 & T1); [lia | now apply dfs_at | apply R0|].
-    destruct (dg_copy l1 _ nb s r (rg s) (rs s) (map Some (rs s)) T1) as (l2 & E2 & T2); [lia | lia | congruence | rewrite set_reg_other by congruence; now apply dfs_at | now rewrite set_reg_same | apply R0|].
-    eapply Fin; [rewrite (da_destruct_eq esz (rg r) (rs r) (R0 r)); cbn [bind]; rewrite (da_copy_ctor_eq esz nb (rg s) (rs s) (R0 s)); reflexivity
-                | unfold drel_ev in E1; rewrite (ev_run_app_some _ _ _ _ E1); exact E2 |].
-    cbn [dregs dnextb]. eapply TR_ext; [|exact T2]. intros j. rewrite dfs_set by lia. now rewrite set_reg_set.
+    destruct RO as [Hr Hs]. destruct (Z s) as (Als & _).
+    destruct (Nat.eqb_spec r s) as [->|Nrs]; [eapply Fin; [reflexivity | reflexivity | exact Z | exact T]|].
+    destruct (dg_destruct ls _ (al r) _ r (rg r) (rs r) T) as (l1 & E1 & T1); [lia | now apply dfs_at | apply R0 | apply Z|].
+    destruct (dg_copy l1 _ (al s) nb s r (rg s) (rs s) (map Some (rs s)) T1) as (l2 & E2 & T2); [lia | lia | congruence | rewrite set_reg_other by congruence; now apply dfs_at | now rewrite set_reg_same | apply R0 | exact Als|].
+    eapply Fin; [rewrite (da_destruct_eq esz (al r) (rg r) (rs r) (R0 r)); cbn [bind]; rewrite (da_copy_ctor_eq esz (al s) nb (rg s) (rs s) (R0 s)); reflexivity
+                | unfold drel_ev in E1; rewrite (ev_run_app_some _ _ _ _ E1); exact E2 | |].
+    + cbn [dregs dals]. apply doks_set; [exact Z | now apply dok_new].
+    + cbn [dregs dnextb]. eapply TR_ext; [|exact T2]. intros j. rewrite dfs_set by lia. now rewrite set_reg_set.
   - (* move construction *)
     destruct RO as [Hr Hs].
-    destruct (Nat.eqb_spec r s) as [->|Nrs]; [eapply Fin; [reflexivity | reflexivity | exact T]|].
-    destruct (dg_destruct ls _ _ r (rg r) (rs r) T) as (l1 & E1 & T1); [lia | now apply dfs_at | apply R0|].
-    eapply Fin; [rewrite (da_destruct_eq esz (rg r) (rs r) (R0 r)); reflexivity | exact E1 |].
-    cbn [dregs dnextb]. eapply TR_ext; [|apply (TR_swap _ _ _ r s T1); lia].
-    intros j. rewrite swap_slots_at. unfold dfs, set_reg.
-    destruct (Nat.eqb_spec j s) as [->|Ns].
-    + rewrite (proj2 (Nat.ltb_lt s 3) Hs), Nat.eqb_refl. reflexivity.
-    + destruct (Nat.eqb_spec j r) as [->|Nr]; [|reflexivity].
-      rewrite (proj2 (Nat.ltb_lt r 3) Hr), (proj2 (Nat.ltb_lt s 3) Hs). destruct (Nat.eqb_spec s r); [congruence | reflexivity].
+    destruct (Nat.eqb_spec r s) as [->|Nrs]; [eapply Fin; [reflexivity | reflexivity | exact Z | exact T]|].
+    destruct (dg_destruct ls _ (al r) _ r (rg r) (rs r) T) as (l1 & E1 & T1); [lia | now apply dfs_at | apply R0 | apply Z|].
+    eapply Fin; [rewrite (da_destruct_eq esz (al r) (rg r) (rs r) (R0 r)); reflexivity | exact E1 | |].
+    + cbn [dregs dals]. intros k. unfold set_reg.
+      destruct (Nat.eqb_spec k s) as [->|Nks].
+      * destruct (Nat.eqb_spec s r); [congruence|]. apply dok_default, Z.
+      * destruct (Nat.eqb k r); apply Z.
+    + cbn [dregs dnextb]. eapply TR_ext; [|apply (TR_swap _ _ _ r s T1); lia].
+      intros j. rewrite swap_slots_at. unfold dfs, set_reg.
+      destruct (Nat.eqb_spec j s) as [->|Ns].
+      * rewrite (proj2 (Nat.ltb_lt s 3) Hs), Nat.eqb_refl. reflexivity.
+      * destruct (Nat.eqb_spec j r) as [->|Nr]; [|reflexivity].
+        rewrite (proj2 (Nat.ltb_lt r 3) Hr), (proj2 (Nat.ltb_lt s 3) Hs). destruct (Nat.eqb_spec s r); [congruence | reflexivity].
   - (* swap *)
     destruct RO as [Hr Hs].
-    eapply Fin; [reflexivity | reflexivity |].
-    cbn [dregs dnextb]. eapply TR_ext; [|apply (TR_swap _ _ _ r s T); lia].
-    intros j. rewrite swap_slots_at. unfold dfs, set_reg.
-    destruct (Nat.eqb_spec j s) as [->|Ns].
-    + now rewrite (proj2 (Nat.ltb_lt s 3) Hs), (proj2 (Nat.ltb_lt r 3) Hr).
-    + destruct (Nat.eqb_spec j r) as [->|Nr]; [|reflexivity].
-      now rewrite (proj2 (Nat.ltb_lt s 3) Hs), (proj2 (Nat.ltb_lt r 3) Hr).
+    eapply Fin; [reflexivity | reflexivity | |].
+    + cbn [dregs dals]. intros k. unfold set_reg. destruct (Nat.eqb k s); [apply Z|]. destruct (Nat.eqb k r); apply Z.
+    + cbn [dregs dnextb]. eapply TR_ext; [|apply (TR_swap _ _ _ r s T); lia].
+      intros j. rewrite swap_slots_at. unfold dfs, set_reg.
+      destruct (Nat.eqb_spec j s) as [->|Ns].
+      * now rewrite (proj2 (Nat.ltb_lt s 3) Hs), (proj2 (Nat.ltb_lt r 3) Hr).
+      * destruct (Nat.eqb_spec j r) as [->|Nr]; [|reflexivity].
+        now rewrite (proj2 (Nat.ltb_lt s 3) Hs), (proj2 (Nat.ltb_lt r 3) Hr).
 Qed.
 
 Lemma drun_log : forall ops st rs ls,
-  drel st rs -> TR ls (dfs (dregs st)) (dnextb st) -> dref_ok rs ops -> Forall dregs_ok ops ->
+  drel st rs -> doks (dals st) (dregs st) -> TR ls (dfs (dregs st)) (NINST * dnextb st) -> dref_ok rs ops -> Forall dregs_ok ops ->
   exists st' e ls', drun esz st ops = Ok (st', snd (dref_run rs ops), e) /\ ev_run ls e = Some ls' /\
-    drel st' (fst (dref_run rs ops)) /\ TR ls' (dfs (dregs st')) (dnextb st').
+    drel st' (fst (dref_run rs ops)) /\ doks (dals st') (dregs st') /\ TR ls' (dfs (dregs st')) (NINST * dnextb st').
 Proof.
-  induction ops as [|o ops IH]; intros st rs ls R T K RO.
-  - exists st, [], ls. split; [reflexivity|]. split; [reflexivity|]. split; assumption.
+  induction ops as [|o ops IH]; intros st rs ls R Z T K RO.
+  - exists st, [], ls. split; [reflexivity|]. split; [reflexivity|]. split; [exact R|]. split; assumption.
   - destruct K as [P K]. inversion RO as [|? ? RO1 RO2]; subst.
-    destruct (dstep_log st rs o ls R T P RO1) as (st1 & e1 & l1 & H1 & E1 & R1 & T1).
+    destruct (dstep_log st rs o ls R Z T P RO1) as (st1 & e1 & l1 & H1 & E1 & R1 & Z1 & T1).
     cbn [drun dref_run]. rewrite H1. cbn [bind].
     destruct (dref_step rs o) as [rs1 x] eqn:Es. cbn [fst snd] in *.
-    destruct (IH st1 rs1 l1 R1 T1 K RO2) as (st2 & e2 & l2 & H2 & E2 & R2 & T2). rewrite H2. cbn [bind].
+    destruct (IH st1 rs1 l1 R1 Z1 T1 K RO2) as (st2 & e2 & l2 & H2 & E2 & R2 & Z2 & T2). rewrite H2. cbn [bind].
     destruct (dref_run rs1 ops) as [rs2 xs]. cbn [fst snd] in *.
-    exists st2, (e1 ++ e2), l2. split; [reflexivity|]. split; [rewrite (ev_run_app_some _ _ _ _ E1); exact E2|]. split; assumption.
+    exists st2, (e1 ++ e2), l2. split; [reflexivity|]. split; [rewrite (ev_run_app_some _ _ _ _ E1); exact E2|].
+    split; [exact R2|]. split; assumption.
 Qed.
 
 Theorem dyn_array_log_wf : forall ops, dref_ok rs0 ops -> Forall dregs_ok ops ->
   exists st outs e fin, drun esz dst0 ops = Ok (st, outs, e) /\ dfinish esz st = Ok fin /\ wf_closed (e ++ fin) = true.
 Proof.
   intros ops K RO.
-  assert (T0 : TR ls0 (dfs (dregs dst0)) (dnextb dst0)).
+  assert (T0 : TR ls0 (dfs (dregs dst0)) (NINST * dnextb dst0)).
   { assert (E : forall j, dfs (dregs dst0) j = fp0) by (intros j; unfold dfs; destruct (Nat.ltb j 3); reflexivity).
     split; [|split].
     - eapply tracks_ext; [|apply (tracks_ls0 VK)]. intros j _. apply E.
@@ -220,15 +253,16 @@ Proof.
       + intros j _. rewrite E. apply fp_ok_fp0. cbn. lia.
       + intros i j _ _ _. rewrite !E. apply sep_fp0.
     - apply E. }
-  destruct (drun_log ops dst0 rs0 ls0 drel0 T0 K RO) as (st & e & l1 & H & E & R & T).
-  destruct st as [rg nb]. cbn [dregs dnextb] in *. pose proof R as R0. unfold drel in R0. cbn [dregs] in R0.
+  assert (Z0 : doks (dals dst0) (dregs dst0)) by (intros r; apply dok_default; cbn [dals dst0]; unfold NINST; lia).
+  destruct (drun_log ops dst0 rs0 ls0 drel0 Z0 T0 K RO) as (st & e & l1 & H & E & R & Z & T).
+  destruct st as [rg al nb]. cbn [dregs dals dnextb] in *. pose proof R as R0. unfold drel in R0. cbn [dregs] in R0.
   set (rsf := fst (dref_run rs0 ops)) in *.
-  destruct (dg_destruct l1 _ _ 0 (rg 0) (rsf 0) T) as (a1 & E1 & T1); [lia | apply dfs_at; lia | apply R0|].
-  destruct (dg_destruct a1 _ _ 1 (rg 1) (rsf 1) T1) as (a2 & E2 & T2); [lia | rewrite set_reg_other by lia; apply dfs_at; lia | apply R0|].
-  destruct (dg_destruct a2 _ _ 2 (rg 2) (rsf 2) T2) as (a3 & E3 & T3); [lia | rewrite !set_reg_other by lia; apply dfs_at; lia | apply R0|].
-  exists (mk_dst rg nb), (snd (dref_run rs0 ops)), e. eexists. split; [exact H|]. split.
-  - unfold dfinish, nregs. cbn [dregs da_destruct_regs].
-    rewrite (da_destruct_eq esz (rg 0) _ (R0 0)), (da_destruct_eq esz (rg 1) _ (R0 1)), (da_destruct_eq esz (rg 2) _ (R0 2)). cbn [bind]. reflexivity.
+  destruct (dg_destruct l1 _ (al 0) _ 0 (rg 0) (rsf 0) T) as (a1 & E1 & T1); [lia | apply dfs_at; lia | apply R0 | apply Z|].
+  destruct (dg_destruct a1 _ (al 1) _ 1 (rg 1) (rsf 1) T1) as (a2 & E2 & T2); [lia | rewrite set_reg_other by lia; apply dfs_at; lia | apply R0 | apply Z|].
+  destruct (dg_destruct a2 _ (al 2) _ 2 (rg 2) (rsf 2) T2) as (a3 & E3 & T3); [lia | rewrite !set_reg_other by lia; apply dfs_at; lia | apply R0 | apply Z|].
+  exists (mk_dst rg al nb), (snd (dref_run rs0 ops)), e. eexists. split; [exact H|]. split.
+  - unfold dfinish, nregs. cbn [dregs dals da_destruct_regs].
+    rewrite (da_destruct_eq esz (al 0) (rg 0) _ (R0 0)), (da_destruct_eq esz (al 1) (rg 1) _ (R0 1)), (da_destruct_eq esz (al 2) (rg 2) _ (R0 2)). cbn [bind]. reflexivity.
   - destruct (tracks_all_empty VK a3) as (B & L).
     { destruct T3 as (T3 & _). eapply tracks_ext; [|exact T3]. intros j _. unfold set_reg. destruct j as [|[|[|j]]]; reflexivity. }
     apply (wf_closed_of_run _ a3); [|exact B | exact L].
